@@ -45,7 +45,7 @@ def meta(tier):
                 'that shows the mute state, references to every label/constant a marker defined, a zone probe); '
                 'non-trivial = history with >=1 conditional directive whose reference selection both excludes and includes '
                 'at least one marker; states = distinct canonical reference states (symbols, zones, cursors, mute, labels)',
-        'bounds': {'alphabet': [R.render_stmt(s) for s in SIGMA], 'core_alphabet': [R.render_stmt(s) for s in (SIGMA_CORE_Q if q else SIGMA_CORE)],
+        'bounds': {'alphabet': [R.render_stmt(s) for s in SIGMA], 'core_alphabet': [R.render_stmt(s) for s in SIGMA_CORE_Q],
                    'depth_full_alphabet': 4 if q else 5, 'depth_core_alphabet': 5 if q else 6,
                    'variants_per_history': 'V0 markers+symbol probes; V1 +label/constant references; V2 +zone probe'},
         'assumptions': [
@@ -178,7 +178,7 @@ def shard(acc, tier, idx, n):
         for s in alphabet:
             rec(hist + (s,), alphabet, limit)
     rec((a, b), SIGMA, full_depth)
-    core = SIGMA_CORE_Q if q else SIGMA_CORE
+    core = SIGMA_CORE_Q             # (the 13-symbol SIGMA_CORE is kept for reference; depth 6 over it is out of budget)
     if a in core and b in core:
         # the deepest level only over the core alphabet (histories all of whose symbols are core symbols)
         def rec_core(hist):
